@@ -1368,7 +1368,8 @@ void generate(const std::string &prop, Rng &wl, Rng &fl, Case &c)
         {
           // the periodic reader's own Shutdown is not idempotent (and not required to be);
           // the provider latches, so shut it down through the provider
-          int64_t code = wl.chance(0.5) ? 3 : 2;
+          // every timeout class, also zero and one shorter than an Export in flight
+          int64_t code = wl.chance(0.4) ? 3 : (int64_t)wl.below(3);
           if (stratum != "stall")
           {
             t.ops.push_back({OP_SHUTDOWN, code, 1, 0, 0});
